@@ -1297,8 +1297,20 @@ func joinPath(a []string, b string) string {
 	return p + b
 }
 
-// readLV reads the value at an lvalue.
+// readLV reads the value at an lvalue (slice lengths read from memory are non-negative).
 func (ev *Ev) readLV(lv *LValue) Value {
+	v := ev.readLV0(lv)
+	if !ev.spec && (v.K == vSlice || v.K == vStruct) {
+		walkValue(v, "", func(path string, l Value) {
+			if strings.HasSuffix(path, "#len") && !strings.Contains(l.T, "$") {
+				ev.st.assume(app(">=", l.T, "0"))
+			}
+		})
+	}
+	return v
+}
+
+func (ev *Ev) readLV0(lv *LValue) Value {
 	u := ev.u
 	switch lv.K {
 	case lvBlank:
@@ -1455,6 +1467,19 @@ func (ev *Ev) assignLV(lv *LValue, v Value) {
 		})
 	case lvMapElem:
 		first := true
+		if len(lv.Path) == 0 {
+			nLeaves := 0
+			walkValue(v, "", func(string, Value) { nLeaves++ })
+			if nLeaves == 0 {
+				// element type without data (struct{}): only the key set changes
+				dom, _, card, ds, _ := ev.mapFams(lv.MapTyp, "", SRef)
+				dcur := u.fam(ev.st, dom, ds)
+				ccur := u.fam(ev.st, card, arraySort(SRef, SInt))
+				indom := app("select", app("select", dcur, lv.Ref), lv.Idx)
+				u.setFam(ev.st, card, arraySort(SRef, SInt), app("store", ccur, lv.Ref, app("ite", indom, app("select", ccur, lv.Ref), app("+", app("select", ccur, lv.Ref), "1"))))
+				u.setFam(ev.st, dom, ds, app("store", dcur, lv.Ref, app("store", app("select", dcur, lv.Ref), lv.Idx, "true")))
+			}
+		}
 		walkValue(v, "", func(path string, l Value) {
 			p := joinPath(lv.Path, path)
 			dom, val, card, ds, vs := ev.mapFams(lv.MapTyp, p, l.S)
